@@ -55,7 +55,7 @@ class OperatorCheck(Check):
             out.append(opsem.make_task(scopes.SIG2, conds, self.weakly, self.cfgs, qspec, via=via, wsig=WSIG2, cls=cls,
                                        scope=scope))
         for alpha_name, size, per_class, tq in self.b3[tier]:
-            size = min(size, self.maxn)
+            size = min(size, self.maxn[tier] if isinstance(self.maxn, dict) else self.maxn)
             reps, st = scopes.structural_scope(getattr(scopes, alpha_name), scopes.SIG3, size, self.want, seed, per_class)
             self.stats["B3(%d)-%s" % (size, alpha_name)] = st
             for i, (conds, cls) in enumerate(reps):
